@@ -52,14 +52,20 @@ def toHex (n : Nat) (minDigits : Nat := 1) : String :=
   let cs := toHexAux n []
   String.ofList (List.replicate (minDigits - cs.length) '0' ++ cs)
 
+/-- an iterator observed after it was advanced: `count after n/3 steps : last after n/3 steps : exhausted-stays-exhausted`
+    (after `n` steps `next`, `last`, `count`, `nth(0)` find nothing; `skip(n).last()` and `skip(n+1).next()` find nothing) -/
+def statefulTxt (items : List String) : String :=
+  let n := items.length
+  s!"{n - n / 3}:{(items.getLast?).getD "-"}:1"
+
 /-- what the standard adaptors must deliver on the list of items an iterator yields:
-    `count:nth(n-1):skip(n/2):step_by(3):last:nth(n):size_hint-consistent` -/
+    `count:nth(n-1):skip(n/2):step_by(3):last:nth(n):size_hint-consistent`, then `statefulTxt` -/
 def adaptorsTxt (items : List String) : String :=
   let n := items.length
   let o := fun (x : Option String) => x.getD "-"
   let l := fun (v : List String) => if v.isEmpty then "-" else ".".intercalate v
   let step3 := (items.zipIdx.filter fun x => x.2 % 3 == 0).map (·.1)
-  s!"{n}:{o items.getLast?}:{l (items.drop (n / 2))}:{l step3}:{o items.getLast?}:-:1"
+  s!"{n}:{o items.getLast?}:{l (items.drop (n / 2))}:{l step3}:{o items.getLast?}:-:1:{statefulTxt items}"
 
 /-- answer of a handler: model answer and verdict of the property predicate on the implementation's answer -/
 structure Ans where
